@@ -420,7 +420,27 @@ func H16_two_certificates() {
 	w16RSA.n, w16RSA.e, w16Sign = new(big.Int), 65537, 1
 	firstHasExt := vChoose(2, "first-has-extensions") == 1
 	w16Top.cert = mk(firstHasExt, 1)
+	// the first input may also be one the parser rejects (trailing data)
+	firstRejected := vChoose(2, "first-rejected") == 1
+	w16Top.trailing = firstRejected
 	o1, e1 := ParseCertificate([]byte{0x30, 0})
+	w16Top.trailing = false
+	if firstRejected {
+		vAssert(e1 != nil, "C16.trailing-data-rejected")
+		w16Top.cert = mk(!firstHasExt, 2)
+		o2, e2 := ParseCertificate([]byte{0x30, 0})
+		vAssert(e2 == nil && o2 != nil, "C16.well-formed-certificate-accepted")
+		if e2 == nil && o2 != nil {
+			n2 := 1
+			if firstHasExt {
+				n2 = 0
+			}
+			vAssert(len(o2.Extensions) == n2, "C16.extension-list-is-that-of-this-certificate")
+			_, se2 := ModHex(o2)
+			vAssert((se2 == nil) == (n2 == 1), "C16.serial-is-that-of-this-certificate")
+		}
+		return
+	}
 	vAssert(e1 == nil && o1 != nil, "C16.well-formed-certificate-accepted")
 	w16Top.cert = mk(!firstHasExt, 2)
 	o2, e2 := ParseCertificate([]byte{0x30, 0})
